@@ -145,6 +145,25 @@ func init() {
 	harnessAPI["vB2I"] = func(r *Run, fr *frame, args []Value) Value {
 		return r.tt.Ite(args[0].(*Term), r.tt.Const(64, 1), r.tt.Const(64, 0))
 	}
+	harnessAPI["vClockConcrete"] = func(r *Run, fr *frame, args []Value) Value {
+		r.clockConcrete = true
+		r.noteAssumption("wall clock (time.Now) is a concrete counter in this harness: it only feeds logging/flush timing")
+		return nil
+	}
+	harnessAPI["vStub"] = func(r *Run, fr *frame, args []Value) Value {
+		if r.stubs == nil {
+			r.stubs = map[string]bool{}
+		}
+		r.stubs[argStr(fr, args[0])] = true
+		r.noteAssumption("summarised as a no-op by the harness: " + argStr(fr, args[0]))
+		return nil
+	}
+	harnessAPI["vOr"] = func(r *Run, fr *frame, args []Value) Value {
+		return r.tt.Or(args[0].(*Term), args[1].(*Term))
+	}
+	harnessAPI["vAnd"] = func(r *Run, fr *frame, args []Value) Value {
+		return r.tt.And(args[0].(*Term), args[1].(*Term))
+	}
 	harnessAPI["vYield"] = func(r *Run, fr *frame, args []Value) Value {
 		r.yield(fr, "vYield")
 		return nil
@@ -423,4 +442,58 @@ func init() {
 		}
 		return r.tt.Const(64, uint64(r.typeSize(iv.T)))
 	}, "encoding/binary.Size")
+}
+
+// ---- viper: a ghost key -> value store
+func init() {
+	reg(func(r *Run, fr *frame, args []Value) Value {
+		if r.viper == nil {
+			r.viper = map[string]Value{}
+		}
+		r.viper[args[0].(string)] = args[1]
+		return nil
+	}, "github.com/spf13/viper.Set")
+	reg(func(r *Run, fr *frame, args []Value) Value {
+		key := args[0].(string)
+		dst, _ := args[1].(Iface)
+		if v, ok := r.viper[key]; ok {
+			if iv, ok := v.(Iface); ok && iv.T != nil && dst.T != nil {
+				if pt, ok := dst.T.Underlying().(*types.Pointer); ok && types.Identical(pt.Elem(), iv.T) {
+					if p, ok := dst.V.(*Value); ok && p != nil {
+						r.storeInto(pt.Elem(), p, deepCopy(iv.V))
+					}
+				}
+			}
+		}
+		return Iface{}
+	}, "github.com/spf13/viper.UnmarshalKey")
+	reg(func(r *Run, fr *frame, args []Value) Value { return "/home/verif/.dastard/config.yaml" }, "github.com/spf13/viper.ConfigFileUsed")
+}
+
+// deepCopy copies aggregates and slices (restored configuration must not alias the saved one)
+func deepCopy(v Value) Value {
+	switch x := v.(type) {
+	case Slice:
+		if x == nil {
+			return x
+		}
+		out := make(Slice, len(x))
+		for i := range x {
+			out[i] = deepCopy(x[i])
+		}
+		return out
+	case Struct:
+		out := make(Struct, len(x))
+		for i := range x {
+			out[i] = deepCopy(x[i])
+		}
+		return out
+	case Array:
+		out := make(Array, len(x))
+		for i := range x {
+			out[i] = deepCopy(x[i])
+		}
+		return out
+	}
+	return copyVal(v)
 }
